@@ -365,6 +365,7 @@ class HistogramDensityMethod(BatchDetector):
         self._bins = int(np.floor(np.sqrt(self.reference_n)))
         self.epsilon = []
         self.total_epsilon = 0
+        self.feature_epsilons = None
 
         if self.detect_batch == 1:
             self.update(test_proxy)
